@@ -144,6 +144,18 @@ func delays(q, t int) func(*Config, bool) {
 
 func registerMore2() {
 	addProp(&PropSpec{
+		ID: "C18",
+		Explanation: "Bridge.ServeHTTP is executed with a real server.Local behind it (server and client goroutines as engine threads) on one HTTP request: method in {POST, GET, PUT}, content type in {application/json, +charset=utf-8, +charset=latin1, text/plain, none}, body invalid JSON or 1..2 (thorough 3) members that are symbolically a call to an echo method (arbitrary string/number id, params token), a notification, a statically invalid member with a usable id, or one without. " +
+			"The recorded status and body are compared with the expected responses: caller's id text on every response, result equal to that call's own params, error objects for static errors, object vs array, 204 for notifications only, 405/415/error status without running a handler. A second harness runs two concurrent HTTP callers that use the same id for different calls.",
+		Bounds:      []string{"<= 2 members per request (thorough 3)", "2 concurrent callers, one call each", "delay bound 2"},
+		Outside:     []string{"real HTTP transport", "a ParseRequest hook", "ids of other JSON kinds (covered by ParseRequests in C13)"},
+		Assumptions: append([]string{jsonAssumption, threadAssumption, "net/http.Header from source; mime.ParseMediaType run natively on the (concrete) header value; http.ResponseWriter and request body are harness recorders; io.ReadAll returns the harness body"}, commonAssumptions...),
+		Harnesses: []HarnessSpec{
+			{Dir: "jhttp", Name: "Harness_C18_bridge", Reach: []string{"405", "415", "bad-json", "204", "single", "array"}},
+			{Dir: "jhttp", Name: "Harness_C18_concurrent", Reach: []string{"concurrent"}},
+		},
+	})
+	addProp(&PropSpec{
 		ID: "C19",
 		Explanation: "PARTIAL (the jhttp.Channel clause is outside, see below). (1) ParseQuery and ParseBasic on a request whose single query value is a symbolic string over the alphabet {\" ' + - 0 1 . e x _ n a i f} or one of the words true/false/null/inf/nan/infinity/-inf/+inf in lower, upper or title case: no panic, non-empty method equal to the trimmed path, parameters JSON-marshalable (checked by marshalling them through the json stub, where NaN/Inf fail), typing per the documented cascade (values strconv accepts beyond the documented grammar may be finite numbers: 'liberal typing', tolerated). " +
 			"(2) the path trimmed of slashes for every path of <= 4 symbolic bytes. (3) Getter.ServeHTTP over a real server.Local: 400 for an unparsable URL, 200 with the result, 404 for method-not-found (unknown method, or a handler error with that code), 500 otherwise; body always valid JSON.",
